@@ -182,6 +182,64 @@ func geometry(s *core.Source, o Opts, depth int) orb.Geometry {
 	}
 }
 
+// Big draws a geometry whose element counts cross the decoders' preallocation
+// caps (10 000 points, 100 members): beyond them the decoders grow their
+// slices, which is a different code path from the one small values take.
+func Big(s *core.Source) orb.Geometry {
+	pts := func(n int) []orb.Point {
+		ps := make([]orb.Point, n)
+		for i := range ps {
+			ps[i] = orb.Point{float64(i), -float64(i) / 8}
+		}
+		// a few drawn bit patterns so that position slips are visible
+		for k := 0; k < 4; k++ {
+			ps[s.Intn(n, "bigpos")] = orb.Point{Coord(s, AnyBits), Coord(s, AnyBits)}
+		}
+		return ps
+	}
+	n := []int{9999, 10000, 10001, 10037, 20011}[s.Intn(5, "bign")]
+	m := []int{99, 100, 101, 137, 260}[s.Intn(5, "bigm")]
+	switch s.Intn(7, "bigkind") {
+	case 0:
+		return orb.LineString(pts(n))
+	case 1:
+		return orb.MultiPoint(pts(n))
+	case 2:
+		return orb.Polygon{orb.Ring(pts(3)), orb.Ring(pts(n))}
+	case 3:
+		ml := make(orb.MultiLineString, m)
+		for i := range ml {
+			ml[i] = orb.LineString(pts(2 + i%3))
+		}
+		return ml
+	case 4:
+		p := make(orb.Polygon, m)
+		for i := range p {
+			p[i] = orb.Ring(pts(4))
+		}
+		return p
+	case 5:
+		mp := make(orb.MultiPolygon, m)
+		for i := range mp {
+			mp[i] = orb.Polygon{orb.Ring(pts(4))}
+		}
+		return mp
+	default:
+		c := make(orb.Collection, m)
+		for i := range c {
+			switch i % 3 {
+			case 0:
+				c[i] = orb.Point{float64(i), 1}
+			case 1:
+				c[i] = orb.LineString(pts(2))
+			default:
+				c[i] = orb.MultiPoint(pts(2))
+			}
+		}
+		return c
+	}
+}
+
 // Describe renders a geometry compactly with exact coordinate bits where needed.
 func Describe(g orb.Geometry) string {
 	var sb strings.Builder
